@@ -243,7 +243,10 @@ def value_strategy(mode, reg):
             st.floats(0, 360).map(lambda x: round(x, 3)),
             st.floats(-400, 800).map(lambda x: round(x, 2)),
             st.sampled_from([0, 360, 359.9973, 359.9999, 720, -0.001, 1e6,
-                             1e9, -1e9, 0.0027465, 180, 120.5]))
+                             1e9, -1e9, 0.0027465, 180, 120.5,
+                             # whole numbers a float cannot hold exactly
+                             10 ** 16 + 1, 2 ** 60 + 100,
+                             123456789012345678901, -(10 ** 17) - 7]))
     return st.one_of(
         st.floats(0, 100).map(lambda x: round(x, 3)),
         st.floats(-30, 150).map(lambda x: round(x, 2)),
